@@ -5,11 +5,14 @@ import (
 	"archive/zip"
 	"bytes"
 	"crypto"
+	"crypto/rand"
 	"crypto/sha256"
+	"crypto/x509"
 	"debug/macho"
 	"encoding/base64"
 	"encoding/binary"
 	"fmt"
+	"github.com/sassoftware/relic/v8/xverif/apkref"
 	"io"
 	"os"
 	"os/exec"
@@ -702,7 +705,7 @@ func sigMember(format, name string) bool {
 }
 
 func TestC02_Semantic(t *testing.T) {
-	kinds := []string{"zip-replace", "zip-delete", "zip-add", "jar-add-listed", "ps-append-after-block", "ps-graft", "ps-append-line", "pgp-graft", "pe-graft", "pe-append-after-table", "pe-append-inside-table", "cab-append", "xap-append", "msi-extra-stream", "msi-change-stream"}
+	kinds := []string{"zip-replace", "zip-delete", "zip-add", "jar-add-listed", "apk-v2-foreign-key", "apk-v2-foreign-key", "ps-append-after-block", "ps-graft", "ps-append-line", "pgp-graft", "pe-graft", "pe-append-after-table", "pe-append-inside-table", "cab-append", "xap-append", "msi-extra-stream", "msi-change-stream"}
 	reps := evid.EnvInt("VERIF_C02_SEMREPS", 8)
 	rapid.Check(t, func(t *rapid.T) {
 		for r := 0; r < reps; r++ {
@@ -809,6 +812,55 @@ func semanticOnce(t *rapid.T, kinds []string) {
 			}, map[string][]byte{"evil.class": evil})
 			if err != nil {
 				panic("skip-rep")
+			}
+		case kind == "apk-v2-foreign-key":
+			// the v2 block rebuilt by someone who holds another key but lists the original
+			// signer's certificate: the signature value is not the certificate holder's
+			sa = signOne(t, "apk", dir)
+			info, err := apkref.Parse(sa.data)
+			if err != nil || len(info.Certificates) == 0 {
+				panic("skip-rep")
+			}
+			leaf, err := x509.ParseCertificate(info.Certificates[0])
+			if err != nil {
+				panic("skip-rep")
+			}
+			signWith := func(name string) func([]byte) ([]byte, uint32, error) {
+				return func(digest []byte) ([]byte, uint32, error) {
+					k := keys.Key(name)
+					sig, err := k.Sign(rand.Reader, digest, crypto.SHA256)
+					alg := uint32(0x0103)
+					if keys.Kind(name) != "rsa" {
+						alg = 0x0201
+					}
+					return sig, alg, err
+				}
+			}
+			// control: the same rebuild with the certificate's own key must verify, or the
+			// harness encoder is wrong and the case says nothing
+			control, err := apkref.Rebuild(sa.data, info.Certificates, leaf.RawSubjectPublicKeyInfo, signWith(sa.key))
+			if err != nil {
+				t.Fatalf("harness: rebuilding the v2 block: %v", err)
+			}
+			if err := verifyBytes(dir, sa, control, nil); err != nil {
+				if keys.Kind(sa.key) == "rsa" || !strings.Contains(err.Error(), "algorithm") {
+					t.Fatalf("harness: a v2 block rebuilt with the signer's own key does not verify: %v", err)
+				}
+				panic("skip-rep")
+			}
+			var others []string
+			// (not the keys of the issuing CAs, whose certificates are in the embedded list)
+			for _, k := range []string{"rsa2048b", "p256b", "p521b", "p384a", "rsa3072"} {
+				if k != sa.key {
+					others = append(others, k)
+				}
+			}
+			foreign := rapid.SampledFrom(others).Draw(t, "foreign_key")
+			spki, _ := x509.MarshalPKIXPublicKey(keys.Key(foreign).Public())
+			cd.Region = "v2-block-resigned-by:" + foreign
+			mutated, err = apkref.Rebuild(sa.data, info.Certificates, spki, signWith(foreign))
+			if err != nil {
+				t.Fatalf("harness: rebuilding the v2 block: %v", err)
 			}
 		case kind == "ps-append-after-block":
 			// script text after the end of the signature block: PowerShell still runs it
